@@ -31,7 +31,7 @@ static uint64_t rnd()
     return z ^ ( z >> 31 );
 }
 
-// hash families: 0 identity, 1 constant, 2 k % 3, 3 (k / 3) % 3, 4 k % 2, 5 k * 16, 6 k >> 2
+// hash families: 0 identity, 1 constant, 2 k % 3, 3 (k / 3) % 3, 4 k % 2, 5 k * 16, 6 k >> 2, 7 (k >> 1) % 2
 static int g_h1 = 0, g_h2 = 0;
 static size_t hfam( int f, long k )
 {
@@ -42,6 +42,7 @@ static size_t hfam( int f, long k )
     case 4: return size_t( k % 2 );
     case 5: return size_t( k * 16 );
     case 6: return size_t( k >> 2 );
+    case 7: return size_t(( k >> 1 ) % 2 );
     default: return size_t( k );
     }
 }
@@ -57,9 +58,17 @@ static void on_alarm( int )
     _exit( 3 );
 }
 
+// how a lost key is classified (cuckoo only): "fullsets" when every probe set the key could live in is completely
+// full at the moment the loss is noticed (the recorded known finding: resize() finds no room in either pass),
+// "withroom" when one of them still has room (something else lost the key)
+static std::string ( *g_classify_loss )( void* set, long key ) = nullptr;
+
+static std::vector<std::string> g_explicit_ops;     // "i<key>" / "e<key>": replay of a kept witness instead of random operations
+
 template <class Set>
 static void run_ops( Set& s, char const* name, std::string const& cfg, int keyspace, int nops, bool can_erase )
 {
+    if ( !g_explicit_ops.empty()) nops = int( g_explicit_ops.size());
     std::set<long> ref;
     std::string ops, obs;
     bool bad = false;
@@ -68,6 +77,7 @@ static void run_ops( Set& s, char const* name, std::string const& cfg, int keysp
     for ( int i = 0; i < nops && !bad; ++i ) {
         long k = long( rnd() % keyspace );
         bool ins = !can_erase || rnd() % 100 < 70;
+        if ( !g_explicit_ops.empty()) { ins = g_explicit_ops[i][0] == 'i'; k = std::atol( g_explicit_ops[i].c_str() + 1 ); }
         bool r = ins ? s.insert( k ) : s.erase( k );
         bool e = ins ? ref.insert( k ).second : ref.erase( k ) > 0;
         ops += ( ins ? " i" : " e" ) + std::to_string( k );
@@ -75,7 +85,9 @@ static void run_ops( Set& s, char const* name, std::string const& cfg, int keysp
         if ( r != e ) { obs += " X result-differs-at-op-" + std::to_string( i ); bad = true; break; }
         for ( long q = 0; q < keyspace; ++q )
             if ( s.contains( q ) != ( ref.count( q ) > 0 )) {
-                obs += " X key-" + std::to_string( q ) + ( ref.count( q ) ? "-lost" : "-phantom" ) + "-after-op-" + std::to_string( i );
+                std::string how = ref.count( q ) ? "-lost" : "-phantom";
+                if ( ref.count( q ) && g_classify_loss ) how += g_classify_loss( &s, q );
+                obs += " X key-" + std::to_string( q ) + how + "-after-op-" + std::to_string( i );
                 bad = true; break;
             }
         if ( !bad && s.size() != ref.size()) { obs += " X size-" + std::to_string( s.size()) + "-expected-" + std::to_string( ref.size()); bad = true; }
@@ -83,6 +95,8 @@ static void run_ops( Set& s, char const* name, std::string const& cfg, int keysp
     alarm( 0 );
     std::printf( "%s %s ops%s ->%s\n", name, cfg.c_str(), ops.c_str(), obs.c_str());
 }
+
+static int g_explicit_cfg[6] = { -1, 0, 0, 0, 0, 0 };     // h1 h2 init pset thr keyspace
 
 template <class ProbeSet>
 static void cuckoo_case( char const* name )
@@ -94,20 +108,42 @@ static void cuckoo_case( char const* name )
         typedef cc::cuckoo::striping<> mutex_policy;
     };
     typedef cc::CuckooSet<long, traits> set_t;
-    static int const fams[][2] = { { 2, 3 }, { 0, 5 }, { 4, 6 }, { 1, 0 }, { 2, 4 }, { 0, 0 } };
-    int f = int( rnd() % 6 );
+    struct probe {
+        static std::string classify( void* v, long key )
+        {
+            typedef typename set_t::base_class base_t;
+            base_t& s = (base_t&) *static_cast<set_t*>( v );         // protected base: a C-style cast may reach it
+            size_t h[2] = { hash1()( key ), hash2()( key ) };
+            for ( unsigned i = 0; i < 2; ++i )
+                if ( s.bucket( i, h[i] ).size() < s.m_nProbesetSize ) return "-withroom";
+            return "-fullsets";
+        }
+    };
+    g_classify_loss = &probe::classify;
+    static int const fams[][2] = { { 2, 3 }, { 0, 5 }, { 4, 6 }, { 1, 0 }, { 2, 4 }, { 0, 0 }, { 4, 7 }, { 4, 7 } };
+    int f = int( rnd() % 8 );
     g_h1 = fams[f][0]; g_h2 = fams[f][1];
-    size_t init = size_t( 1 + rnd() % 8 ), pset = size_t( 2 + rnd() % 3 ), thr = size_t( rnd() % pset );      // threshold < probe-set size as documented (0 = default)
+    // probe-set sizes 2..4, and 5..8 for a third of the cases; threshold anywhere below the probe-set size
+    // (0 = default = size - 1), so that configurations with threshold < size - 1 (pass 2 of resize) occur
+    size_t init = size_t( 1 + rnd() % 8 ), pset = size_t( rnd() % 3 == 0 ? 5 + rnd() % 4 : 2 + rnd() % 3 ), thr = size_t( rnd() % pset );
     int keyspace = 4 + int( rnd() % 14 );
+    if ( g_explicit_cfg[0] >= 0 ) {
+        g_h1 = g_explicit_cfg[0]; g_h2 = g_explicit_cfg[1]; init = size_t( g_explicit_cfg[2] ); pset = size_t( g_explicit_cfg[3] );
+        thr = size_t( g_explicit_cfg[4] ); keyspace = g_explicit_cfg[5];
+    }
     // cuckoo hashing cannot store more keys than the buckets its hash functions can address: with a hash family of
     // bounded range, growing the table never helps and insert() resizes forever (liveness, not the subject of C17).
     // Keep the key space within what always fits: 2 * probe-set size (one bucket per table in the worst case).
-    bool bounded = ( g_h1 >= 1 && g_h1 <= 4 ) || ( g_h2 >= 1 && g_h2 <= 4 );
+    bool bounded = ( g_h1 >= 1 && g_h1 <= 4 ) || ( g_h2 >= 1 && g_h2 <= 4 ) || g_h2 == 7;
+    if ( g_explicit_cfg[0] >= 0 ) bounded = false;
     if ( bounded && keyspace > int( pset ) * 2 ) keyspace = int( pset ) * 2;
-    if ( g_h1 == 2 && g_h2 == 3 ) keyspace = 6 + int( rnd() % ( 3 * pset ));   // 3 x 3 grid of hash pairs: fits in 6 buckets of pset slots, but only after relocations
+    if ( g_explicit_cfg[0] >= 0 ) {}
+    else if ( g_h1 == 2 && g_h2 == 3 ) keyspace = 6 + int( rnd() % ( 3 * pset ));   // 3 x 3 grid of hash pairs: fits in 6 buckets of pset slots, but only after relocations
+    if ( g_explicit_cfg[0] < 0 && g_h1 == 4 && g_h2 == 7 ) keyspace = 4 + int( rnd() % ( 3 * pset ));   // 2 x 2 grid: 4 buckets of pset slots; stay at 3/4 of what fits
     set_t s( init, pset, thr );
     std::string cfg = "h=" + std::to_string( g_h1 ) + "," + std::to_string( g_h2 ) + " init=" + std::to_string( init ) + " pset=" + std::to_string( pset ) + " thr=" + std::to_string( thr );
     run_ops( s, name, cfg, keyspace, 40 + int( rnd() % 60 ), true );
+    g_classify_loss = nullptr;
 }
 
 static void striped_case()
@@ -138,7 +174,9 @@ static void splitlist_case()
 
 int main( int argc, char** argv )
 {
-    uint64_t seed = argc > 1 ? strtoull( argv[1], nullptr, 10 ) : 1;
+    // `resize explicit <cuckoo_list|cuckoo_vector> <h1> <h2> <init> <pset> <thr> <keyspace> <i<k>|e<k>>...`: replay one kept case
+    bool explicit_case = argc > 9 && std::string( argv[1] ) == "explicit";
+    uint64_t seed = argc > 1 && !explicit_case ? strtoull( argv[1], nullptr, 10 ) : 1;
     size_t n = argc > 2 ? strtoull( argv[2], nullptr, 10 ) : 200;
     size_t first = argc > 3 ? strtoull( argv[3], nullptr, 10 ) : 0;      // resume after a case that hung
     std::signal( SIGALRM, on_alarm );
@@ -146,6 +184,14 @@ int main( int argc, char** argv )
     {
         cds::gc::HP hp;
         cds::threading::Manager::attachThread();
+        if ( explicit_case ) {
+            for ( int i = 0; i < 6; ++i ) g_explicit_cfg[i] = std::atoi( argv[3 + i] );
+            for ( int i = 9; i < argc; ++i ) g_explicit_ops.push_back( argv[i] );
+            rng_s = 1;
+            if ( std::string( argv[2] ) == "cuckoo_vector" ) cuckoo_case< cc::cuckoo::vector<4> >( "cuckoo_vector" );
+            else cuckoo_case< cc::cuckoo::list >( "cuckoo_list" );
+            n = 0;
+        }
         for ( size_t i = first; i < n; ++i ) {
             rng_s = ( seed * 0x2545F4914F6CDD1Dull + 13 ) ^ ( i * 0x9E3779B97F4A7C15ull );     // every case is reproducible on its own
             std::printf( "# case %zu\n", i );
